@@ -116,6 +116,8 @@ package common
 //@   ensures [C11,C07] named: res ==> (forall s string :: {s in p.NamedPorts} s in p.NamedPorts ==> (s in other.NamedPorts || fullRange(other)))
 //@   ensures [C11] complete: ((forall n int :: {iset(p.Ports)[n]} iset(p.Ports)[n] ==> iset(other.Ports)[n])
 //@         && (forall s string :: {s in p.NamedPorts} s in p.NamedPorts ==> s in other.NamedPorts)) ==> res
+//@   loop 1:
+//@     invariant sub: forall s string :: {seen(s)} seen(s) ==> (s in p.NamedPorts && s in other.NamedPorts)
 
 //@ func (*PortSet).Intersection
 //@   requires wfPS(p) && wfPS(other)
@@ -160,10 +162,10 @@ package common
 //@ pred isProto(q v1.Protocol) = q == "TCP" || q == "UDP" || q == "SCTP"
 //@ pred isPP(q v1.Protocol, n int) = isProto(q) && 1 <= n && n <= 65535
 
-//@ pred ownsPS(c *ConnectionSet, r *PortSet) = exists q v1.Protocol :: q in c.AllowedProtocols && r == c.AllowedProtocols[q]
-//@ pred ownsMap(c *ConnectionSet, m map[string]bool) = exists q v1.Protocol :: q in c.AllowedProtocols
+//@ pred ownsPS(c *ConnectionSet, r *PortSet) = exists q v1.Protocol :: {q in c.AllowedProtocols} q in c.AllowedProtocols && r == c.AllowedProtocols[q]
+//@ pred ownsMap(c *ConnectionSet, m map[string]bool) = exists q v1.Protocol :: {q in c.AllowedProtocols} q in c.AllowedProtocols
 //@     && (m == c.AllowedProtocols[q].NamedPorts || m == c.AllowedProtocols[q].ExcludedNamedPorts)
-//@ pred ownsIS(c *ConnectionSet, r *interval.CanonicalSet) = exists q v1.Protocol :: q in c.AllowedProtocols && r == c.AllowedProtocols[q].Ports
+//@ pred ownsIS(c *ConnectionSet, r *interval.CanonicalSet) = exists q v1.Protocol :: {q in c.AllowedProtocols} q in c.AllowedProtocols && r == c.AllowedProtocols[q].Ports
 
 // representation invariant: well-formed port sets, no sharing between protocols, AllowAll has an empty map,
 // protocol keys are TCP/UDP/SCTP and numeric ports lie in 1..65535 (input validity V of DESIGN section 5)
@@ -397,12 +399,8 @@ package common
 //@   ensures [C11,C05,C02] wf: wfCS(conn) && sepCS(conn, other)
 //@   ensures [C11,C02] pts: forall q v1.Protocol, n int :: {iset(conn.AllowedProtocols[q].Ports)[n]} {old(iset(conn.AllowedProtocols[q].Ports)[n])} {iset(other.AllowedProtocols[q].Ports)[n]}
 //@         pts(conn, q, n) == (old(pts(conn, q, n)) && !pts(other, q, n))
-//@   ensures [C11,C05] canon: (old(canonCS(conn)) && old(pureNum(conn)) && pureNum(other)) ==> (canonCS(conn) && pureNum(conn))
 //@   loop 1:
 //@     invariant wf: wfCS(conn) && sepCS(conn, other) && !conn.AllowAll
-//@     invariant pureN: (pre(pureNum(conn)) && pureNum(other)) ==> (forall q v1.Protocol :: {q in conn.AllowedProtocols} q in conn.AllowedProtocols ==> noNames(conn.AllowedProtocols[q]))
-//@     invariant pureE: (pre(pureNum(conn)) && pureNum(other)) ==> (forall q v1.Protocol :: {q in conn.AllowedProtocols} q in conn.AllowedProtocols ==> noExcl(conn.AllowedProtocols[q]))
-//@     invariant pureP: (pre(pureNum(conn)) && pureNum(other)) ==> (forall q v1.Protocol :: {q in conn.AllowedProtocols} q in conn.AllowedProtocols ==> !noNums(conn.AllowedProtocols[q]))
 //@     invariant sub: forall q v1.Protocol :: {seen(q)} seen(q) ==> pre(q in conn.AllowedProtocols)
 //@     invariant shrink: forall q v1.Protocol :: {q in conn.AllowedProtocols} q in conn.AllowedProtocols ==>
 //@         (pre(q in conn.AllowedProtocols) && conn.AllowedProtocols[q] == pre(conn.AllowedProtocols[q]))
@@ -410,5 +408,3 @@ package common
 //@         (q in conn.AllowedProtocols && iset(conn.AllowedProtocols[q].Ports) == pre(iset(conn.AllowedProtocols[q].Ports)))
 //@     invariant done: forall q v1.Protocol, n int :: {iset(conn.AllowedProtocols[q].Ports)[n]} {pre(iset(conn.AllowedProtocols[q].Ports)[n])} seen(q) ==>
 //@         ptsP(conn, q, n) == (pre(ptsP(conn, q, n)) && !ptsP(other, q, n))
-//@     invariant notfull: forall q v1.Protocol :: {q in conn.AllowedProtocols} (seen(q) && q in other.AllowedProtocols
-//@         && !noNums(other.AllowedProtocols[q]) && q in conn.AllowedProtocols) ==> !fullRange(conn.AllowedProtocols[q])
